@@ -101,7 +101,7 @@ package mqtt
 // verif:def EV_PUBLISH_DROPPED() int = 5
 // verif:def EV_PACKET_PROCESSED() int = 6
 // verif:def EV_ID_EXHAUSTED() int = 7
-// verif:def ev1(k int, c *Client, id uint16) bool = nev == old(nev) + 1 && evkind[old(nev)] == k && evcl[old(nev)] == c && evid[old(nev)] == int(id) && (forall j int :: 0 <= j && j < old(nev) ==> evkind[j] == old(evkind[j]) && evcl[j] == old(evcl[j]) && evid[j] == old(evid[j]))
+// verif:def ev1(k int, c *Client, id uint16) bool = nev == old(nev) + 1 && evkind[old(nev)] == k && evcl[old(nev)] == c && evid[old(nev)] == int(id) && (forall j int :: j < old(nev) ==> evkind[j] == old(evkind[j]) && evcl[j] == old(evcl[j]) && evid[j] == old(evid[j]))
 // verif:def sentOne(cl *Client) bool = cl.nsent == old(cl.nsent) + 1
 // verif:def sentNone(cl *Client) bool = cl.nsent == old(cl.nsent)
 // verif:def lastSent(cl *Client) Packet = cl.sentpk[old(cl.nsent)]
@@ -117,7 +117,7 @@ package mqtt
 //@ modifies cl.nsent, cl.sentpk
 //@ ensures accepted: r0 == nil ==> cl.nsent == old(cl.nsent) + 1 && cl.sentpk[old(cl.nsent)] == pk
 //@ ensures refused: r0 != nil ==> cl.nsent == old(cl.nsent)
-//@ ensures older-kept: forall k int :: 0 <= k && k < old(cl.nsent) ==> cl.sentpk[k] == old(cl.sentpk[k])
+//@ ensures older-kept: forall k int :: k < old(cl.nsent) ==> cl.sentpk[k] == old(cl.sentpk[k])
 
 // verif:func mqtt.Client.Stop trusted
 //@ modifies cl.stopped
@@ -303,7 +303,7 @@ package mqtt
 //@ ensures !s.Options.Capabilities.Compatibilities.PassiveClientDisconnect ==> cl.stopped
 //@ ensures !s.Options.Capabilities.Compatibilities.PassiveClientDisconnect && code.Code >= 128 ==> r0 != nil
 //@ ensures cl.nsent >= old(cl.nsent) && cl.nsent <= old(cl.nsent) + 1
-//@ ensures forall k int :: 0 <= k && k < old(cl.nsent) ==> cl.sentpk[k] == old(cl.sentpk[k])
+//@ ensures forall k int :: k < old(cl.nsent) ==> cl.sentpk[k] == old(cl.sentpk[k])
 
 // verif:func mqtt.Server.retainMessage trusted
 //@ modifies nretain, retainpk
@@ -397,3 +397,35 @@ package mqtt
 //@ ensures C09-resume-keeps-unacknowledged-messages: r0 && old(len(s.Clients.internal[cl.ID].State.Inflight.internal)) > 0 ==> (forall k uint16 :: (has(ifl(cl), k) <==> old(has(s.Clients.internal[cl.ID].State.Inflight.internal, k))) && ifl(cl)[k] == old(s.Clients.internal[cl.ID].State.Inflight.internal[k]))
 //@ ensures C11-send-quota-from-the-new-connection: r0 && old(len(s.Clients.internal[cl.ID].State.Inflight.internal)) > 0 && cl.ops.options.Capabilities.ReceiveMaximum != 0 ==> cl.State.Inflight.maximumSendQuota == int32(cl.Properties.Props.ReceiveMaximum) && cl.State.Inflight.maximumReceiveQuota == int32(cl.ops.options.Capabilities.ReceiveMaximum)
 //@ ensures C14-no-session-no-effect: !old(has(s.Clients.internal, cl.ID)) ==> !r0 && cl.State.Inflight == old(cl.State.Inflight)
+
+// ======================================================================================
+// In-flight housekeeping and redelivery (C08, C09, C25)
+// ======================================================================================
+// every element of the listing is a stored record, found under its own packet id
+// verif:func mqtt.Inflight.GetAll trusted
+//@ ensures forall j int :: 0 <= j && j < len(r0) ==> has(i.internal, r0[j].PacketID) && i.internal[r0[j].PacketID] == r0[j]
+
+// verif:def expiredP(p Packet, now int64) bool = p.ProtocolVersion == 5 && p.Expiry > 0 && p.Expiry < now
+// verif:def enforcedP(p Packet, now int64, max int64) bool = max > 0 && now - p.Created > max
+
+// verif:func mqtt.Client.ClearExpiredInflights modifies=all
+//@ requires validCl(cl) && cl.ops.info != nil
+//@ requires 0 <= now && now <= 1099511627776 && (forall k uint16 :: has(ifl(cl), k) ==> 0 <= ifl(cl)[k].Created && ifl(cl)[k].Created <= 1099511627776)
+//@ ensures C09-unexpired-messages-stay: forall k uint16 :: old(has(ifl(cl), k)) && !expiredP(old(ifl(cl)[k]), now) && !enforcedP(old(ifl(cl)[k]), now, maximumExpiry) ==> has(ifl(cl), k) && ifl(cl)[k] == old(ifl(cl)[k])
+// verif:loop mqtt.Client.ClearExpiredInflights 1
+//@ invariant forall k uint16 :: old(has(ifl(cl), k)) && !expiredP(old(ifl(cl)[k]), now) && !enforcedP(old(ifl(cl)[k]), now, maximumExpiry) ==> has(ifl(cl), k) && ifl(cl)[k] == old(ifl(cl)[k])
+//@ invariant validCl(cl) && cl.ops.info != nil
+
+// (arguments are evaluated in the current state, the table lookup in the entry state)
+// verif:def wasInflight(cl *Client, id uint16) bool = old(has(ifl(cl), id))
+// verif:def wasType(cl *Client, id uint16) byte = old(ifl(cl)[id].FixedHeader.Type)
+// verif:func mqtt.Client.ResendInflightMessages modifies=all
+//@ requires validCl(cl) && cl.ops.info != nil
+//@ ensures C08-C09-only-completed-acks-are-removed: forall k uint16 :: old(has(ifl(cl), k)) && old(ifl(cl)[k].FixedHeader.Type) != Puback && old(ifl(cl)[k].FixedHeader.Type) != Pubcomp ==> has(ifl(cl), k) && ifl(cl)[k] == old(ifl(cl)[k])
+//@ ensures C09-resent-with-dup-and-original-id: forall n int :: old(cl.nsent) <= n && n < cl.nsent ==> (cl.sentpk[n].FixedHeader.Type == Publish ==> cl.sentpk[n].FixedHeader.Dup) && wasInflight(cl, cl.sentpk[n].PacketID) && cl.sentpk[n].FixedHeader.Type == wasType(cl, cl.sentpk[n].PacketID)
+// verif:loop mqtt.Client.ResendInflightMessages 1
+//@ invariant forall k uint16 :: old(has(ifl(cl), k)) && old(ifl(cl)[k].FixedHeader.Type) != Puback && old(ifl(cl)[k].FixedHeader.Type) != Pubcomp ==> has(ifl(cl), k) && ifl(cl)[k] == old(ifl(cl)[k])
+//@ invariant dup: forall n int :: old(cl.nsent) <= n && n < cl.nsent ==> (cl.sentpk[n].FixedHeader.Type == Publish ==> cl.sentpk[n].FixedHeader.Dup)
+//@ invariant id: forall n int :: old(cl.nsent) <= n && n < cl.nsent ==> wasInflight(cl, cl.sentpk[n].PacketID)
+//@ invariant type: forall n int :: old(cl.nsent) <= n && n < cl.nsent ==> cl.sentpk[n].FixedHeader.Type == wasType(cl, cl.sentpk[n].PacketID)
+//@ invariant validCl(cl) && cl.ops.info != nil && cl.nsent >= old(cl.nsent)
